@@ -7,7 +7,7 @@ from hypothesis import strategies as st
 
 from vlib import gens
 from vlib.framework import Check, Outcome
-from vlib.history import World, op_key
+from vlib.history import World, infra, op_key
 
 DIALECTS = ["ansi", "tsql", "mysql", "sqlite", "bigquery", "postgres"]
 NOQA = ["noqa", "noqa: LT01", "noqa: L*", "noqa: P*", "noqa: ?RS", "noqa: PRS", "noqa: T*", "noqa: LXR", "noqa: CP01,LT*",
@@ -289,6 +289,9 @@ class C32(Check):
         world = World(case["tree"])
         try:
             steps, rc, err = world.play(ops)
+            if rc == "timeout" or (isinstance(rc, int) and rc in (-9, -15) and len(steps) < len(ops)):
+                out.excluded = "timeout-or-killed(machine too busy)"
+                return out
             if len(steps) < len(ops):
                 out.fail("driver stopped after %d/%d steps rc=%s: %s" % (len(steps), len(ops), rc, err[-300:]), clause="driver-died")
                 return out
@@ -313,6 +316,9 @@ class C32(Check):
             seen = {}
             for i, (op, k, s) in enumerate(zip(ops, keys, steps)):
                 if k not in fresh:
+                    continue
+                if infra(s["res"]) or infra(fresh[k]["res"]):
+                    out.label("step-not-compared:timeout")
                     continue
                 got, ref = lint_view(s["res"]), lint_view(fresh[k]["res"])
                 if "error" in got:
